@@ -365,6 +365,8 @@ def it_next(I, itp):
             it.f[0] = I.binop("Add", a, 1, "usize")
             return some(a)
         return none()
+    if t == "RangeFrom":
+        a = it.f[0]; it.f[0] = I.binop("Add", a, 1, "i32"); return some(a)
     if t == "Zip":
         r1 = it_next(I, Ptr(Cell(it), (0,)))
         if r1.idx == 0: return r1
@@ -919,3 +921,60 @@ def _memchr_next(I, itp):
 for _t in ("Memchr", "Memchr2", "Memchr3", "memchr::Memchr2", "memchr::Memchr3"):
     S[f"<{_t} as Iterator>::next"] = _memchr_next
     S[f"<{_t} as IntoIterator>::into_iter"] = lambda I, it: it
+
+
+# ------------------------------------------------------------------ BTreeMap with possibly symbolic scalar keys (association list)
+class _AL: pass
+
+
+@summary("BTreeMap::new", "<BTreeMap as Default>::default")
+def _(I): return Agg([[]], "BTreeMap")
+@summary("BTreeMap::insert")
+def _(I, mp, k, v):
+    m = I.deref(mp)
+    for e in m.f[0]:
+        if I.W.branch(I.eq_generic(e[0], k)):
+            old = e[1]; e[1] = v; return some(old)
+    m.f[0].append([k, v]); return none()
+@summary("BTreeMap::get")
+def _(I, mp, kp):
+    m = I.deref(mp); k = I.deref(kp)
+    for i, e in enumerate(m.f[0]):
+        if I.W.branch(I.eq_generic(e[0], k)):
+            return some(Ptr(Cell(Agg(e, "entry")), (1,)))
+    return none()
+@summary("Option::copied")
+def _(I, o):
+    if o.idx == 0: return o
+    return some(clone_val(I.deref(o.f[0])))
+@summary("core::mem::ManuallyDrop::new", "ManuallyDrop::new")
+def _(I, v): return Agg([v], "ManuallyDrop")
+
+
+# ------------------------------------------------------------------ panics and their message plumbing (messages are not built)
+def _fmt_placeholder(I, *a): return Agg([], "FmtArg")
+
+
+for _n in ("new_display", "new_debug", "new_lower_hex", "new_upper_hex"):
+    S["core::fmt::rt::Argument::" + _n] = S["fmt::rt::Argument::" + _n] = S["Argument::" + _n] = _fmt_placeholder
+for _n in ("Arguments::new", "Arguments::from_str", "Arguments::new_const", "Arguments::new_v1", "core::fmt::Arguments::new", "core::fmt::Arguments::from_str",
+           "core::fmt::Arguments::new_const", "core::fmt::Arguments::new_v1", "fmt::Arguments::new", "fmt::Arguments::from_str"):
+    S[_n] = _fmt_placeholder
+
+
+def _panic(kind):
+    def f(I, *a):
+        msg = ""
+        for x in a:
+            if type(x) is SliceRef and x.is_str and all(isinstance(b, int) for b in x.items()):
+                msg = bytes(x.items()).decode(errors="replace"); break
+        raise Panic(f"{kind}: {msg}" if msg else kind, kind)
+    return f
+
+
+for _n, _k in (("panic_fmt", "panic"), ("core::panicking::panic_fmt", "panic"), ("core::panicking::panic", "panic"), ("panic", "panic"),
+               ("core::panicking::panic_display", "panic"), ("panic_display", "panic"), ("core::panicking::panic_explicit", "panic"), ("panic_explicit", "panic"),
+               ("core::option::expect_failed", "expect"), ("expect_failed", "expect"), ("core::result::unwrap_failed", "unwrap"), ("unwrap_failed", "unwrap"),
+               ("core::option::unwrap_failed", "unwrap"), ("core::panicking::panic_nounwind", "panic"), ("std::rt::begin_panic", "panic"), ("begin_panic", "panic"),
+               ("core::panicking::unreachable_display", "unreachable"), ("unreachable_display", "unreachable"), ("core::panicking::panic_const::panic_const_div_by_zero", "panic")):
+    S[_n] = _panic(_k)
